@@ -170,6 +170,71 @@ func c01Gen(tier string, rng *rand.Rand, emit func(interface{})) {
 		}
 		emit(c01Case{Run: mwRun{EL: 50, TL: 25, X1: toF64s(x1), X2: toF64s(x2), Alts: allAlts}})
 	}
+	// (b2) method selection by the two limit variables at other values than the defaults: sizes at,
+	// one below and one above the limit that applies (EL without ties, TL with ties), the OTHER limit
+	// set so that it would decide the opposite way
+	nSel := 60
+	if thorough {
+		nSel = 600
+	}
+	for it := 0; it < nSel; it++ {
+		tied := it%2 == 0
+		lim := 2 + rng.Intn(9)
+		n1 := lim - 1 + rng.Intn(3)
+		n2 := lim - 1 + rng.Intn(3)
+		if it%3 == 0 {
+			n2 = 1 + rng.Intn(lim)
+		}
+		if n1 < 1 {
+			n1 = 1
+		}
+		var x1, x2 []float64
+		if tied {
+			// at least one tie, at least two distinct values
+			for i := 0; i < n1; i++ {
+				x1 = append(x1, float64(rng.Intn(3)))
+			}
+			for i := 0; i < n2; i++ {
+				x2 = append(x2, float64(rng.Intn(3)+1))
+			}
+			x1[0], x2[0] = 1, 1
+			if n1 > 1 {
+				x1[1] = 0
+			} else {
+				x2 = append(x2, 3)
+			}
+		} else {
+			perm := rng.Perm(n1 + n2)
+			for i, q := range perm {
+				if i < n1 {
+					x1 = append(x1, float64(q))
+				} else {
+					x2 = append(x2, float64(q))
+				}
+			}
+		}
+		if tied && it%4 == 0 && n1+n2 >= 3 {
+			// the smallest possible tie: distinct values except ONE tied pair, anywhere in the
+			// order, inside one sample or across the two
+			x1, x2 = mwOnePair(rng, n1, n2)
+		}
+		el, tl := lim, lim
+		switch it % 4 {
+		case 0, 1:
+			if tied {
+				el = 1000 // must be ignored with ties
+			} else {
+				tl = 1000 // must be ignored without ties
+			}
+		case 2:
+			if tied {
+				el = 0
+			} else {
+				tl = 0
+			}
+		}
+		emit(c01Case{Run: mwRun{EL: el, TL: tl, X1: toF64s(x1), X2: toF64s(x2), Alts: allAlts}})
+	}
 	// (c) degenerate: empty samples, all-equal samples
 	emit(c01Case{Run: mwRun{EL: 50, TL: 25, X1: nil, X2: toF64s([]float64{1, 2}), Alts: allAlts}})
 	emit(c01Case{Run: mwRun{EL: 50, TL: 25, X1: toF64s([]float64{1, 2}), X2: []F64{}, Alts: allAlts}})
